@@ -56,6 +56,20 @@ EXTRA = ("Prefer mechanisms that differ in KIND from everything listed below. Th
          "expr_parser.py and merchant_engine.py unless the property lives there.  Run `git -C <your worktree> log --oneline | head -50` and "
          "make sure your change is not simply the reverse of one of those commits.  Put your two variants in two different files if the "
          "property allows.")
+EXTRA_R9 = EXTRA
+EXTRA = ("Prefer mechanisms that differ in KIND from everything listed below. This time look for TWO-SITE bugs - a caller and a callee (or a writer "
+         "and a later reader: of a file, a dict key, a printed line, a JSON field, a settings key) that stop agreeing about a unit, a sign, a letter "
+         "case, None versus empty, a list versus a set, a date versus a datetime, an index base, an encoding or a path base after only ONE of them "
+         "is 'improved' - and for conditions under which a rarely taken branch is taken for the first time: the second data source, the second "
+         "year, the thirteenth month, a merchant with exactly one payment, a view with no members, a rules file with only variables, a statement "
+         "with only credits, a budget whose every transaction is excluded from spending, an amount of exactly 0.00 or exactly the threshold.  "
+         "Modules that have seen few proposals so far are good places: commands/explain.py, commands/discover.py, commands/diag.py, "
+         "commands/inspect.py, commands/run.py, report.py, analyzer.py (the export_* and print_* functions, build_merchant_json, "
+         "classify_by_sections), config_loader.py, section_engine.py, format_parser.py, classification.py, parsers.py, merchant_utils.py.  Run "
+         "`git -C <your worktree> log --oneline | head -55` and make sure your change is not simply the reverse of one of those commits.  Put "
+         "your two variants in two different files if the property allows.")
+if len(sys.argv) > 2 and sys.argv[2] == 'r9':
+    EXTRA = EXTRA_R9
 if len(sys.argv) > 2 and sys.argv[2] == 'r8':
     EXTRA = EXTRA_R8
 if len(sys.argv) > 2 and sys.argv[2] == 'r7':
